@@ -202,7 +202,7 @@ def narrowing_rule(F, R, rid, text, pred, floor):
             continue            # widening by type: nothing to prove
         n += 1
         fn = M.fn_key(f.path)
-        base = "%s:cast:%s->%s:%s" % (fn, sty, to, f.describe(s["rv"]["a"]))
+        base = "%s:cast:%s->%s:%s" % (fn, sty, to, f.stable_describe(s["rv"]["a"]))
         k = seen.get(base, 0) + 1
         seen[base] = k
         key = base if k == 1 else "%s#%d" % (base, k)
